@@ -6,8 +6,10 @@
 
   Written from the reference manual §5.4.1 and lstrlib's semantics, never from gopher-lua.
   Bytes are `Nat` (< 256); strings are `List Nat`, the subject is an `Array Nat`.
-  Not covered (outside the property's domain): `%f` (frontier, undocumented in 5.1), patterns containing
-  the byte 0 (5.1 patterns are C strings), a replacement string ending in a single `%` (5.1 reads the
+  `%f[set]` (frontier) is ported as lstrlib 5.1.5 implements it (it is there, though the 5.1 manual does not document it).
+  Not covered (outside the property's domain): patterns containing
+  the byte 0 (5.1 patterns are C strings; this port reads a NUL in the pattern as an ordinary byte, which is the reading of
+  lstrlib ≥ 5.2 — the `…_bytes` theorems of Props/C14 say so explicitly), a replacement string ending in a single `%` (5.1 reads the
   terminating NUL), more than 32 captures (LUA_MAXCAPTURES is a limit, not a semantics).
 -/
 namespace GLua.LuaPattern
@@ -214,7 +216,21 @@ def matchF (src : Array Nat) : Nat → List Cap → Nat → List Nat → Res (Na
           | none => .fail
           | some s' => matchF src f caps s' r'
         | _ => .error "unbalanced pattern"
-      else if c = 37 ∧ r.head? = some 102 then .error "UNDEF frontier"
+      else if c = 37 ∧ r.head? = some 102 then
+        -- `case 'f'` of lstrlib 5.1.5: the previous byte ('\0' at the start of the subject) is outside the set and the
+        -- current byte ('\0' at the end of the subject) is inside it; consumes nothing
+        match r.drop 1 with
+        | 91 :: _ =>
+          match classEnd (r.drop 1) with
+          | .ok (.set content, ep) =>
+            let prev : Nat := if s = 0 then 0 else (src[s - 1]?).getD 0
+            let cur : Nat := (src[s]?).getD 0
+            if matchBracketClass prev content ∨ ¬ matchBracketClass cur content then .fail
+            else matchF src f caps s ep
+          | .ok _ => .error "malformed pattern"
+          | .error e => .error e
+          | .fail => .fail
+        | _ => .error "missing '[' after '%f' in pattern"
       else if c = 37 ∧ (r.head?.map isDigit) = some true then
         match matchCapture src caps s (r.headD 0) with
         | .error e => .error e
@@ -507,7 +523,15 @@ def wfScan (posCaps : List Nat) : Nat → WfState → List Nat → WfState
       match r with
       | _ :: _ :: _ :: r' => wfScan posCaps f st r'
       | _ => { st with ok := false }
-    else if c = 37 ∧ r.head? = some 102 then { st with ok := false, frontier := true }
+    else if c = 37 ∧ r.head? = some 102 then
+      match r.drop 1 with
+      | 91 :: _ =>
+        match classEnd (r.drop 1) with
+        | .ok (.set content, ep) =>
+          let re := st.rangeEsc || setHasRangeEsc (match content with | 94 :: x => x | x => x)
+          wfScan posCaps f { st with frontier := true, rangeEsc := re } ep
+        | _ => { st with ok := false, frontier := true }
+      | _ => { st with ok := false, frontier := true }
     else if c = 37 ∧ (r.head?.map isDigit) = some true then
       let d := r.headD 0
       if d < 49 then { st with ok := false } else
